@@ -795,3 +795,15 @@ have hle : F w ≤ ∑ i ∈ Finset.Ico (0:ℤ) N, F i := by
   exact hnn i hi'.1 hi'.2
 linarith
 """)
+
+
+# ---- the two ways of writing the point-dipole interaction --------------------------------------------------------------------
+lemma("point_dipole_form",
+      types={"a": "real", "b": "real", "c": "real", "RR": "real", "prf": "real", "epsr": "real"},
+      hyps=[("hR", "RR > 0"), ("he", "epsr > 0")],
+      concl="prf*(a/(RR*RR*RR) - 3.0*b*c/(RR*RR*RR*RR*RR))/epsr == prf*(a - 3.0*(b/RR)*(c/RR))/(RR*RR*RR)/epsr",
+      proof="""
+have h1 : RR ≠ 0 := ne_of_gt hR
+have h2 : epsr ≠ 0 := ne_of_gt he
+field_simp
+""")
